@@ -243,6 +243,20 @@ def pair_case(eg, i, cplx):
     if "kron" in o and r.random() < 0.5:   # diagonal factors exercise the fusion rules
         k1, k2 = r.choice([("Diag", "Diag"), ("Diag", k2), (k1, "Diag")])
     leaf = lambda t: dict(op="leaf", tree=t, arr=False)
+    if o.startswith("sl_"):
+        # every ordered pair of scalar-like kinds (Diagonal, Identity, ScalarMul) under kron / kronsum / @ / +: the fusion and
+        # elimination rules are keyed on these kinds and the ORDER of the factors matters for kron and kronsum
+        _, o2, ka, kb = o.split("_")
+        na, nb = r.randint(2, 3), r.randint(2, 3)
+        if o2 in ("dot", "add"):
+            nb = na
+        if (o2 == "dot" and "dot_identity_ambiguous" in eg.present and "Ident" in (ka, kb)):
+            return None
+        a = T.rooted(gen, ka, na, na, cplx=cplx, depth=0)
+        b = T.rooted(gen, kb, nb, nb, cplx=cplx, depth=0)
+        if a is None or b is None:
+            return None
+        return dict(op=o2, x=leaf(a), y=leaf(b)), None
     if o.startswith("flat_"):
         # both operands already have the kind the combinator flattens (Sum+Sum, Product@Product, Kronecker (x) Kronecker,
         # KronSum (+) KronSum): the order of the spliced factor lists matters for all but the sum
@@ -283,6 +297,14 @@ def pair_case(eg, i, cplx):
     if o in ("add", "sub"):
         b = T.rooted(gen, k2, m, n, cplx=cplx, depth=1)
         return (dict(op=o, x=leaf(a), y=leaf(b)), ("Sum",)) if b else None
+    if o in ("add_zarr", "add_zarr_bad"):
+        # a plain ARRAY operand that is entirely zero (of a wider dtype, or of a mismatching shape): no "adding zero is a
+        # no-op" shortcut may swallow it - the sum has the promoted dtype, and a mismatching shape is rejected
+        zm, zn = (m, n) if o == "add_zarr" else r.choice([(m + 1, n), (m, n + 1), (1, n) if m > 1 else (m + 2, n)])
+        zdt = r.choice(["float64", "complex128"]) if o == "add_zarr" else gen.dt(cplx)
+        z = dict(op="leaf", tree=dict(k="Dense", dt=zdt, a=[[[0, 0] for _ in range(zn)] for _ in range(zm)]), arr=True)
+        x_, y_ = (leaf(a), z) if (r.random() < 0.6 or "rsub_missing" in eg.present) else (z, leaf(a))
+        return dict(op=r.choice(["add", "sub"]), x=x_, y=y_), None
     if o in ("add_bad", "dot_bad"):
         # operands of incompatible shape, the root kinds rotating through ALL kinds (Identity / ScalarMul / Diagonal operands
         # are consumed by simplification rules that never build a Sum / Product): must be rejected
@@ -494,11 +516,12 @@ def run(ctx):
     gen.concat_equal = "concat_assert_wrong_axis" in c01_present
     gen.sparse_sorted = "sparse_unsorted_cols" in c01_present
     eg = EGen(rnd, gen, present)
-    n = ctx.budget(600, 5000)
+    n = ctx.budget(700, 5000)
     cases, obs = [], []
     tries = 0
-    ops_u = ["mul", "neg", "div", "add", "sub", "dot", "kron", "kronsum", "kron3r", "kron3l", "block", "add_bad", "dot_bad"]
-    eg.combos = [(o_, k_) for o_ in ops_u for k_ in ALLK] + [("flat_" + o_, None) for o_ in ("add", "dot", "kron", "kronsum") for _ in range(4)]
+    ops_u = ["mul", "neg", "div", "add", "sub", "dot", "kron", "kronsum", "kron3r", "kron3l", "block", "add_bad", "dot_bad", "add_zarr", "add_zarr_bad"]
+    eg.combos = [(o_, k_) for o_ in ops_u for k_ in ALLK] + [("flat_" + o_, None) for o_ in ("add", "dot", "kron", "kronsum") for _ in range(4)] + \
+                [(f"sl_{o_}_{ka}_{kb}", None) for o_ in ("kron", "kronsum", "dot", "add") for ka in ("Diag", "Ident", "Scal") for kb in ("Diag", "Ident", "Scal")]
     rnd.shuffle(eg.combos)
     pc_i = 0   # position in the (combinator x root kind) sweep: 198 combinations, all visited in every run
     while len(cases) < n and tries < 30 * n:
